@@ -251,6 +251,7 @@ class Atoms():
         """
         atoms = []
         for x in self.all_atoms:
-            if x.resiclass.upper() == name.upper() and x.name not in atoms:
+            # Atom names are not case-sensitive:
+            if x.resiclass.upper() == name.upper() and x.name.upper() not in [a.upper() for a in atoms]:
                 atoms.append(x.name)
         return atoms
